@@ -66,6 +66,15 @@ def lattice(proj, tier):
                 continue
             cells.append(R.Cell(obs=f"{kind}_{fl}", process=proc, fns=fns, nfff=nfff, nf=nf, pto=pto,
                                 projectile="antineutrino" if proc == "CC" else "positron", ren_sv=ren, fact_sv=fact))
+    # B'. scale variations on while the DIS order differs from the evolution order (the variation tables and the result slots must
+    # be sized by the same order, whichever way the two differ)
+    for kind, proc, (pto, pto_evol), (ren, fact) in itertools.product(
+        ["F2", "F3", "g1"], ["NC", "CC"], [(0, 1), (1, 2), (2, 1), (1, 3), (2, 0), (3, 1)], [(True, True), (True, False), (False, True)]
+    ):
+        if proc == "CC" and (kind == "g1" or (tier == "quick" and (ren, fact) != (True, True))):
+            continue
+        cells.append(R.Cell(obs=f"{kind}_total", process=proc, fns="ZM-VFNS", nfff=4, nf=4, pto=pto, pto_evol=pto_evol,
+                            projectile="neutrino" if proc == "CC" else "electron", ren_sv=ren, fact_sv=fact))
     # C. FONLL parts and mismatched evolution order
     for kind, fl, fns, parts, (pto, pto_evol) in itertools.product(
         ["F2", "FL", "F3", "g1"], ["total", "charm", "light"], ["FONLL-FFNS", "FONLL-FFN0", "FFN0"], ["massless", "massive", "full"],
